@@ -937,5 +937,89 @@ class RoundTrip(Suite):
         return Info(True, lb)
 
 
-SUITES = [ContentLength(), Range(), Dates(), ETags(), Cookies(), ForwardedSuite(), HostUrl(), Accept(), RoundTrip()]
+# ======================================================================== coverage-guided totality
+
+_FUZZ_HEADERS = ['Content-Length', 'Range', 'Date', 'If-Modified-Since', 'If-Unmodified-Since', 'If-Match', 'If-None-Match',
+                 'Cookie', 'Forwarded', 'X-Forwarded-For', 'X-Forwarded-Proto', 'X-Forwarded-Host', 'X-Real-IP', 'Host',
+                 'Accept', 'Content-Type', 'If-Range', 'Expect', 'Referer', 'User-Agent']
+
+
+def _fuzz_accessors(req):
+    return [
+        ('content_length', lambda: req.content_length), ('range', lambda: req.range), ('range_unit', lambda: req.range_unit),
+        ('date', lambda: req.date), ('if_modified_since', lambda: req.if_modified_since),
+        ('if_unmodified_since', lambda: req.if_unmodified_since), ('if_match', lambda: req.if_match),
+        ('if_none_match', lambda: req.if_none_match), ('if_range', lambda: req.if_range), ('cookies', lambda: req.cookies),
+        ('forwarded', lambda: [(f.src, f.dest, f.host, f.scheme) for f in (req.forwarded or [])]),
+        ('access_route', lambda: req.access_route), ('remote_addr', lambda: req.remote_addr),
+        ('forwarded_scheme', lambda: req.forwarded_scheme), ('forwarded_host', lambda: req.forwarded_host),
+        ('forwarded_uri', lambda: req.forwarded_uri), ('forwarded_prefix', lambda: req.forwarded_prefix),
+        ('host', lambda: req.host), ('port', lambda: req.port), ('netloc', lambda: req.netloc), ('subdomain', lambda: req.subdomain),
+        ('uri', lambda: req.uri), ('prefix', lambda: req.prefix), ('relative_uri', lambda: req.relative_uri),
+        ('client_accepts_json', lambda: req.client_accepts_json), ('client_accepts_xml', lambda: req.client_accepts_xml),
+        ('client_accepts(text/plain)', lambda: req.client_accepts('text/plain')),
+        ('client_prefers', lambda: req.client_prefers(['application/json', 'text/plain'])),
+        ('content_type', lambda: req.content_type), ('expect', lambda: req.expect), ('referer', lambda: req.referer),
+        ('user_agent', lambda: req.user_agent),
+        ('get_header_as_int(Content-Length)', lambda: req.get_header_as_int('Content-Length')),
+        ('get_header_as_datetime(Date)', lambda: req.get_header_as_datetime('Date')),
+        ('get_header_as_datetime(Date, obs)', lambda: req.get_header_as_datetime('Date', obs_date=True)),
+    ]
+
+
+class FuzzTotality(Suite):
+    """Coverage-guided (Atheris) search for header values on which a typed accessor raises anything but an HTTPError 4xx
+    or is not stable across reads: 1-3 headers chosen from 20 names, values = fuzzer bytes as latin-1 (CR, LF, NUL and
+    other C0 controls except HTAB removed, as a server would never pass them on), every typed accessor read twice on a WSGI
+    and an ASGI request, and WSGI / ASGI must agree on value-vs-4xx for pure-ASCII values."""
+
+    name = 'fuzz_totality'
+    budget = {'quick': 0, 'thorough': 0}
+    fuzz_runs = {'quick': 4000, 'thorough': 400000}
+    fuzz_shards = {'quick': 4, 'thorough': 12}
+    fuzz_max_len = 120
+
+    def fuzz_corpus(self):
+        return [b'\x01bytes=0-5,7-', b'\x08for="[::1]:80";proto=https, for=_x', b'\x07a=1; b="x\\"y"; a=', b'\x0d[::1]:',
+                b'\x05W/"a", "b,c", *', b'\x03Sun, 06 Nov 1994 08:49:37 GMT', b'\x0etext/*;q=0.5, */*;q=0']
+
+    def fuzz_decode(self, data):
+        if len(data) < 2:
+            return None
+        n = 1 + data[0] % 16 // 8 + (1 if data[0] % 16 == 15 else 0)
+        body = data[1:]
+        parts = body.split(b'\xff', n - 1) if n > 1 else [body]
+        headers = []
+        for i, part in enumerate(parts):
+            if not part:
+                continue
+            name = _FUZZ_HEADERS[(data[0] + 7 * i + part[0]) % len(_FUZZ_HEADERS)] if i else _FUZZ_HEADERS[data[0] % len(_FUZZ_HEADERS)]
+            val = bytes(c for c in part[(1 if i else 0):] if c >= 0x20 and c != 0x7f or c == 0x09).decode('latin-1').strip(' \t')
+            if any(h[0] == name for h in headers):
+                continue
+            headers.append([name, val])
+        if not headers:
+            return None
+        return {'headers': headers}
+
+    def run(self, case):
+        headers = [tuple(h) for h in case['headers']]
+        probes = make_probes(headers)
+        results = []
+        for p in probes:
+            out = {}
+            for what, fn in _fuzz_accessors(p.req):
+                out[what] = p.read(what, fn)
+            results.append(out)
+        ascii_only = all(all(ord(ch) < 128 for ch in v) for _n, v in headers)
+        if ascii_only:
+            for what in results[0]:
+                a, b = results[0][what], results[1][what]
+                if a[0] != b[0]:
+                    raise Violation('wsgi_asgi_disagree', 'req.%s with headers %r: WSGI %r, ASGI %r' % (what, headers, a, b))
+        n4 = sum(1 for r in results[0].values() if r[0] == 'http')
+        return Info(n4 > 0 or len(headers) > 1, ['hdr:' + h[0] for h in headers] + (['some_accessor_answers_4xx'] if n4 else []))
+
+
+SUITES = [ContentLength(), Range(), Dates(), ETags(), Cookies(), ForwardedSuite(), HostUrl(), Accept(), RoundTrip(), FuzzTotality()]
 KNOWN = {}
